@@ -40,17 +40,20 @@ func (c *TimedConn) Read(b []byte) (int, error) {
 			c.mu.Unlock()
 			return 0, net.ErrClosed
 		}
+		// like a real socket (internal/poll: prepareRead fails once the deadline has passed), an
+		// expired deadline wins over buffered input
+		dl := c.deadline
+		if !dl.IsZero() && !time.Now().Before(dl) {
+			c.mu.Unlock()
+			return 0, os.ErrDeadlineExceeded
+		}
 		if len(c.buf) > 0 {
 			n := copy(b, c.buf)
 			c.buf = c.buf[n:]
 			c.mu.Unlock()
 			return n, nil
 		}
-		dl := c.deadline
 		c.mu.Unlock()
-		if !dl.IsZero() && !time.Now().Before(dl) {
-			return 0, os.ErrDeadlineExceeded
-		}
 		time.Sleep(50 * time.Microsecond)
 	}
 }
